@@ -32,3 +32,18 @@ def sync_call(function, returns_awaitable, *args):
     if returns_awaitable:
         return await_(result)
     return result
+
+
+def iterate(x):
+    for item in x:
+        yield item
+
+
+def call_twice(function, returns_awaitable, a, b):
+    r1 = function(a)
+    if returns_awaitable:
+        r1 = await_(r1)
+    r2 = function(b)
+    if returns_awaitable:
+        r2 = await_(r2)
+    return (r1, r2)
